@@ -53,6 +53,12 @@ def run_step(step, heap):
 
     if op == "new":
         return specs.build(a["spec"])
+    if op == "new_local":
+        # library-built local fermionic operators (dense -> from_dense path)
+        fn = getattr(sr, a["fn"])
+        return fn(a["sym"], *a.get("args", []))
+    if op == "repr":
+        return len(str(x)) * 0 + len(repr(x)) * 0 + 1
     if op == "newvec":
         return specs.build_vector(a["spec"])
     if op == "copy":
@@ -177,6 +183,12 @@ def run_step(step, heap):
         return x - untuple(a["s"])
     if op == "rsub_s":
         return untuple(a["s"]) - x
+    if op == "radd_s":
+        return untuple(a["s"]) + x
+    if op == "rdiv_s":
+        return untuple(a["s"]) / x
+    if op == "rpow_s":
+        return untuple(a["s"]) ** x
     if op == "pow_s":
         return x ** untuple(a["s"])
     if op == "neg":
@@ -493,7 +505,24 @@ def _scalar(rng, cplx=False):
 # construction) or None if it does not apply to the current heap.
 
 
+LOCAL_BUILDERS = {
+    "fermi_hubbard_spinless_local_array": (("Z2", "U1"), 3),
+    "fermi_hubbard_local_array": (("Z2", "U1", "Z2Z2", "U1U1"), 3),
+    "fermi_number_operator_spinless_local_array": (("Z2", "U1"), 0),
+    "fermi_number_operator_spinful_local_array": (("Z2", "U1", "Z2Z2", "U1U1"), 0),
+    "fermi_spin_operator_local_array": (("Z2", "U1", "Z2Z2", "U1U1"), 0),
+}
+
+
 def g_new(ctx, heap):
+    if "F" in ctx.kinds and ctx.rng.random() < 0.04 and getattr(ctx, "constructors", True):
+        fn = ctx.rng.choice(sorted(LOCAL_BUILDERS))
+        syms, nargs = LOCAL_BUILDERS[fn]
+        ok = [s for s in ctx.syms if s in syms]
+        if ok:
+            args = [ctx.rng.choice([1.0, 0.5, -2.0]) for _ in range(nargs)]
+            return [{"op": "new_local", "in": [], "out": [ctx.fresh()],
+                     "a": {"fn": fn, "sym": ctx.rng.choice(ok), "args": args}}]
     if ctx.rng.random() < 0.06:
         # a one-element array of rank 1-3 (scalar-like, but not 0-d)
         sym = ctx.rng.choice(list(ctx.syms))
@@ -1113,12 +1142,13 @@ def g_arith1(ctx, heap):
     k = kind_of(x)
     cplx = "complex" in _dtype_of(x)
     if k == "V":
-        op = rng.choice(["mul_s", "div_s", "add_s", "sub_s", "rsub_s", "pow_s", "neg", "rmul_s"])
+        op = rng.choice(["mul_s", "div_s", "add_s", "sub_s", "rsub_s", "pow_s", "neg", "rmul_s",
+                         "radd_s", "rdiv_s", "rpow_s"])
     else:
         op = rng.choice(["mul_s", "div_s", "neg", "rmul_s"])
     a = {}
     if op != "neg":
-        a["s"] = 2 if op == "pow_s" else _scalar(rng, cplx)
+        a["s"] = 2 if op in ("pow_s", "rpow_s") else _scalar(rng, cplx)
     if ctx.inplace() and op in ("mul_s", "div_s", "add_s", "sub_s", "pow_s"):
         return [{"op": "i" + op, "in": [n], "out": [n], "a": a}]
     return [{"op": op, "in": [n], "out": [ctx.fresh()], "a": a}]
@@ -1207,6 +1237,13 @@ def g_params(ctx, heap):
         return [{"op": "get_params", "in": [n], "out": [], "a": {}}]
     op = "set_params" if r < 0.7 else "apply_to_arrays"
     return [{"op": op, "in": [n], "out": [n], "a": {"f": rng.choice([2.0, -1.0, 0.5])}}]
+
+
+def g_repr(ctx, heap):
+    n = _pick(ctx, heap, "AFV", allow_bool=True)
+    if n is None:
+        return None
+    return [{"op": "repr", "in": [n], "out": [], "a": {}}]
 
 
 def g_to_dense(ctx, heap):
@@ -1437,6 +1474,7 @@ GENERATORS = {
     "tdot_scalar": (g_tdot_scalar, 1),
     "div_arrays": (g_div_arrays, 1),
     "params": (g_params, 1),
+    "repr": (g_repr, 1),
     "allclose": (g_allclose, 1),
     "qr": (g_qr, 2),
     "svd": (g_svd, 2),
